@@ -347,6 +347,12 @@ func c01Configs(thorough bool) []c01Cfg {
 					if len(rs) == 3 {
 						cl = 4
 					}
+					if len(rs) == 1 || (mt == 2 && !c01ASCII(strings.Join(rs, ""))) {
+						// replies of the next hop (SMTP error values with multi-line,
+						// non-ASCII text) also in the quick tier: one recipient, and the
+						// SMTPUTF8 message
+						cl = 6
+					}
 					cs = append(cs, c01Cfg{Partial: partial, Rcpts: rs, MaxTries: mt, From: sb.from, Bounce: sb.bounce, Classes: cl})
 				}
 			}
